@@ -46,6 +46,7 @@ Hence `C04_change_refines` transfers.  The driver (`c04b`) prints the tree node 
 (key digests), compared with the dumped implementation tree after every processed commit.
 -/
 import Pdb.Model.BTree
+import Pdb.Model.BTreeNode
 
 namespace Pdb.C04
 
@@ -278,7 +279,8 @@ def derefList (σ : Store V) (m : List (Key × Addr)) : List (Key × Option V) :
 `c04b tree`              `d=<depth> <nodes>`: a leaf is `[t t ..]`, an internal node
                          `(child t child t .. child)`, `t` = `<key length>.<fnv1a-64 of the key>`
 `c04b same`              `yes` / `no`: is the batched tree equal, node by node, to the tree of
-                         the one-change-per-descent model fed with the same commits -/
+                         the one-change-per-descent model fed with the same commits
+`c04b node <hexbytes>`   stateless: `Node::from_encoded` on raw node bytes (Model/BTreeNode.lean) -/
 
 def fnv64 (k : Key) : UInt64 :=
   k.foldl (fun h b => (h ^^^ b.toUInt64) * 1099511628211) 14695981039346656037
@@ -328,6 +330,7 @@ def DrvB.step (s : DrvB) (ws : List String) : DrvB × String :=
 def driverStepB (st : Option DrvB) (ws : List String) : Option DrvB × String :=
   match ws with
   | ["init"] => (some DrvB.init, "ok")
+  | "node" :: rest => (st, nodeLine rest)   -- stateless: `c04b node <hexbytes>` (Model/BTreeNode.lean)
   | _ =>
     match st with
     | some s => let r := s.step ws; (some r.1, r.2)
